@@ -30,6 +30,9 @@ def gen_case(rng, tier):
     stmts = P.gen_program(rng, cfg, n_stmts=rng.randint(4, 14), allow_bad=0.0,
                           weights={'mute': 1.5, 'org': 1.2, 'data': 5, 'fill': 2, 'instr': 3, 'label': 1.5, 'align': 1,
                                    'memzone': 0.8, 'zerountil': 0.7, 'createZone': 0.3, 'const': 0.5})
+    if rng.random() < 0.35:
+        pos = rng.randint(0, len(stmts))
+        stmts[pos:pos] = [{'k': 'instr', 'mn': 'op1', 'args': [[('num', rng.randint(0, 255)), 1]]} for j in range(3)]
     if rng.random() < 0.5:
         stmts.insert(rng.randint(0, len(stmts)), {'k': 'data', 'w': rng.choice([1, 2, 4]),
                                                   'vals': [('num', rng.randint(0, 255)) for _ in range(rng.randint(7, 20))]})
@@ -44,6 +47,10 @@ def gen_case(rng, tier):
     if cfg['bits'] >= 20 and rng.random() < 0.4:
         stmts.append({'k': 'org', 'e': ('num', 0x10000 - rng.randint(0, 3))})
         stmts.append({'k': 'data', 'w': 1, 'vals': [('num', rng.randint(0, 255)) for _ in range(rng.randint(1, 8))]})
+    # several statements on one source line: each is a statement of its own in every format, also in the listing
+    for i in range(len(stmts) - 1):
+        if stmts[i]['k'] == 'instr' and stmts[i + 1]['k'] == 'instr' and rng.random() < 0.6:
+            stmts[i]['join_next'] = True
     return {'cfg': cfg, 'files': [stmts], 'seed': rng.randrange(1 << 30)}
 
 
